@@ -127,8 +127,20 @@ def _token_ok(t):
 
 
 def valid_case(case):
-    if not isinstance(case, dict) or case.get("kind") not in ("build", "parse", "newline"):
+    if not isinstance(case, dict) or case.get("kind") not in ("build", "parse", "newline", "edit"):
         return False
+    if case.get("kind") == "edit":
+        steps = case.get("steps")
+        if not isinstance(steps, list) or case.get("start") not in ("build", "parse"):
+            return False
+        for st_ in steps:
+            if not isinstance(st_, list) or not st_ or st_[0] not in ("set", "setlower", "inplace", "del"):
+                return False
+            if st_[0] == "del":
+                if len(st_) != 2 or not isinstance(st_[1], int):
+                    return False
+            elif len(st_) != 2 or not valid_case({"kind": "build", "cls": case.get("cls"), "items": [st_[1]]}):
+                return False
     if case.get("cls") not in DOC or not isinstance(case.get("items"), list):
         return False
     sub = SUBFIELDS[case["cls"]]
@@ -409,6 +421,66 @@ def check(case):
         o3 = cls(d)
         compare_records(o3, case, "parsed, dumped, parsed")
 
+    elif kind == "edit":
+        # One object, several dumps: what dump() prints is a function of the current content only,
+        # whatever was dumped or assigned before (stale widths, stale formatted text ...).
+        sub = SUBFIELDS[case["cls"]]
+        if case["start"] == "build":
+            cls, o = make_instance(case)
+            assign_items(o, case, case["items"])
+        else:
+            cls = getattr(deb822, case["cls"])
+            o = cls(harness_text(case))
+            if case["cls"] == "Release" and case.get("dak"):
+                o.size_field_behavior = "dak"
+        cur = [list(it) for it in case["items"]]
+        text = dump_or_violation(o, case, "before edits")
+        check_layout(text, dict(case, items=cur), "before edits")
+        nsteps = 0
+        for step in case["steps"]:
+            op = step[0]
+            if op == "del":
+                if len(cur) <= 1:
+                    continue
+                k = step[1] % len(cur)
+                del o[cur[k][1]]
+                del cur[k]
+            else:
+                it = list(step[1])
+                pos = [i for i, c in enumerate(cur) if c[1].lower() == it[1].lower()]
+                if op == "inplace":
+                    # change the records of a multi-line field through the list object itself
+                    if not pos or it[0] != "s" or it[3] or cur[pos[0]][0] != "s" or cur[pos[0]][3]:
+                        continue
+                    lst = o[it[1]]
+                    if not isinstance(lst, list):
+                        raise Violation("record-shape", "edit: %s is %s" % (it[1], short(lst, 80)))
+                    lst[:] = [dict(zip(sub[it[1]], r)) for r in it[2]]
+                    cur[pos[0]] = it
+                else:
+                    key = it[1].lower() if (op == "setlower" and pos) else it[1]
+                    if it[0] == "p":
+                        o[key] = it[2]
+                    else:
+                        dicts = [dict(zip(sub[it[1]], r)) for r in it[2]]
+                        o[key] = dicts[0] if it[3] else dicts
+                    if pos:
+                        it[1] = cur[pos[0]][1]
+                        cur[pos[0]] = it
+                    else:
+                        cur.append(it)
+                labels.add("edit:" + op)
+            nsteps += 1
+            now = dict(case, items=cur)
+            phase = "after edit %d (%s)" % (nsteps, op)
+            text = dump_or_violation(o, now, phase)
+            check_layout(text, now, phase)
+            o2 = cls(text)
+            compare_records(o2, now, phase + ", re-parsed")
+        if nsteps:
+            labels.add("edit:steps-%d" % min(nsteps, 3))
+        nontrivial = nontrivial or nsteps > 0
+
     else:  # newline
         sitems = [i for i, it in enumerate(case["items"]) if it[0] == "s"]
         if not sitems:
@@ -578,9 +650,46 @@ def gen_case(draw):
     return case
 
 
+@st.composite
+def gen_item(draw, clsname, present):
+    """One item for an edit step: mostly a structured field that is already present (so that its
+    records change between two dumps), sometimes a new structured field or an ordinary one."""
+    fields = DOC[clsname]
+    have = [f for f in fields if f[0] in present]
+    pick = draw(st.integers(0, 9))
+    if pick == 0:
+        return ["p", PLAIN_NAMES[draw(st.integers(0, len(PLAIN_NAMES) - 1))], PLAIN_VALUES[draw(st.integers(0, 7))]]
+    field, names = draw(st.sampled_from(have)) if (have and pick < 8) else draw(st.sampled_from(fields))
+    single = is_current(field) and draw(st.integers(0, 3)) == 0
+    nrec = 1 if single else draw(st.integers(1, 4))
+    recs = []
+    for _ in range(nrec):
+        h, z, r = draw(st.integers(0, NT - 1)), draw(st.integers(0, len(SIZES) - 1)), draw(st.integers(0, NT - 1))
+        recs.append([TOKENS[h] if i == 0 else SIZES[z] if nm == "size" else TOKENS[(r + 7 * (i - 2)) % NT]
+                     for i, nm in enumerate(names)])
+    return ["s", field, recs, single]
+
+
+@st.composite
+def gen_edit_case(draw):
+    base = draw(gen_case())
+    present = set(it[1] for it in base["items"] if it[0] == "s")
+    steps = []
+    for _ in range(draw(st.integers(1, 3))):
+        op = draw(st.sampled_from(["set", "set", "setlower", "inplace", "inplace", "del"]))
+        if op == "del":
+            steps.append(["del", draw(st.integers(0, 5))])
+        else:
+            steps.append([op, draw(gen_item(base["cls"], present))])
+    return {"kind": "edit", "cls": base["cls"], "dak": base["dak"], "items": base["items"],
+            "start": draw(st.sampled_from(["build", "parse"])), "pad": 0, "steps": steps}
+
+
 def sources(tier):
     if tier == "quick":
         return [Enum("field-subsets", enum_cases(False), EXHAUSTIVE["quick"]),
-                Hyp("records", gen_case(), 350, shards=8)]
+                Hyp("records", gen_case(), 350, shards=8),
+                Hyp("edit-histories", gen_edit_case(), 250, shards=6)]
     return [Enum("field-subsets-all", enum_cases(True), EXHAUSTIVE["thorough"]),
-            Hyp("records", gen_case(), 5000, shards=16)]
+            Hyp("records", gen_case(), 5000, shards=16),
+            Hyp("edit-histories", gen_edit_case(), 4000, shards=12)]
